@@ -361,7 +361,7 @@ fn main() {
 	let mut s = Session::new();
 	for_each_case(|l| {
 		let t: Vec<&str> = l.split_whitespace().collect();
-		let n = |i: usize| -> i64 { t[i].parse::<i64>().unwrap() };
+		let n = |i: usize| -> i64 { t[i].parse::<i128>().unwrap() as i64 };
 		let (res, oracle) = match t[0] {
 			"S" => {
 				s = Session::new();
@@ -389,7 +389,7 @@ fn main() {
 					bitcoin_signature_2: pool.sign(&d, n(15)),
 					contents: contents.clone(),
 				};
-				s.msgs.insert(msg.encode(), mid);
+				let mid = *s.msgs.entry(msg.encode()).or_insert(mid);
 				let right = funding_script(&contents.bitcoin_key_1, &contents.bitcoin_key_2);
 				let wrong = funding_script(&contents.node_id_1, &contents.bitcoin_key_2);
 				let u = t[16];
@@ -430,7 +430,7 @@ fn main() {
 				} else {
 					s.graph.update_channel_from_announcement(&msg, &lookup).map(|_| "ok".to_string())
 				};
-				(r.unwrap_or_else(|e| res_err(&e)), format!("sigs={} script_ok={}", bits, script_ok))
+				(r.unwrap_or_else(|e| res_err(&e)), format!("sigs={} script_ok={} mid={}", bits, script_ok, mid))
 			},
 			"P" => {
 				let cap = if n(2) < 0 { None } else { Some(n(2) as u64) };
@@ -461,7 +461,7 @@ fn main() {
 				};
 				let d = digest_of(&contents);
 				let msg = ChannelUpdate { signature: pool.sign(&d, n(15)), contents: contents.clone() };
-				s.msgs.insert(msg.encode(), mid);
+				let mid = *s.msgs.entry(msg.encode()).or_insert(mid);
 				let signer = pool.signer_of(&d, &msg.signature);
 				let only_verify = n(16) != 0;
 				let fmt_nodes = |o: Option<(NodeId, NodeId)>| match o {
@@ -479,7 +479,7 @@ fn main() {
 				} else {
 					s.graph.update_channel(&msg).map(fmt_nodes)
 				};
-				(r.unwrap_or_else(|e| res_err(&e)), format!("signer={}", signer))
+				(r.unwrap_or_else(|e| res_err(&e)), format!("signer={} mid={}", signer, mid))
 			},
 			"N" => {
 				let (via, signed, mid) = (n(1) != 0, n(2) != 0, n(3));
@@ -496,7 +496,7 @@ fn main() {
 				};
 				let d = digest_of(&contents);
 				let msg = NodeAnnouncement { signature: pool.sign(&d, n(9)), contents: contents.clone() };
-				s.msgs.insert(msg.encode(), mid);
+				let mid = *s.msgs.entry(msg.encode()).or_insert(mid);
 				let (k, v) = pool.verifies(&d, &msg.signature, &contents.node_id);
 				let r = if !signed {
 					s.graph.update_node_from_unsigned_announcement(&contents).map(|_| "ok".to_string())
@@ -507,7 +507,7 @@ fn main() {
 				} else {
 					s.graph.update_node_from_announcement(&msg).map(|_| "ok".to_string())
 				};
-				(r.unwrap_or_else(|e| res_err(&e)), format!("sigs={}{}", k as u8, v as u8))
+				(r.unwrap_or_else(|e| res_err(&e)), format!("sigs={}{} mid={}", k as u8, v as u8, mid))
 			},
 			"FC" => {
 				let (scid, perm, via) = (n(1) as u64, n(2) != 0, n(3) != 0);
